@@ -641,7 +641,7 @@ def oracle(env):
                                                "view_declares": list(got), "expected_" + nm: w}
         if info["sizes"] != info["matrix_shape"] or info["matrix_shape"] != [size(info["out_shape"]), size(info["in_shape"])]:
             fails["matrix_shape"] = {"matrix_shape": info["matrix_shape"], "sizes": info["sizes"]}
-        if not fails and not has_nonlin(e) and (kind_uniform(e) or not uses_adjoint(e)):
+        if not ({"shape", "evaluation_raised", "matrix_shape"} & set(fails)) and not has_nonlin(e) and (kind_uniform(e) or not uses_adjoint(e)):
             try:
                 D = np_den(e)
             except (ValueError, ZeroDivisionError):
